@@ -106,6 +106,9 @@ func plWrap(sc *plScenario, chk plCheck) *sched.Scenario {
 			a.checkC04(chk.synthetic)
 		}
 		out := sched.Outcome{Summary: plSummary(r), Violations: a.viol}
+		if os.Getenv("VERIF_REPLAY") != "" {
+			fmt.Println(plDescribe(r))
+		}
 		// non-trivial: at least two packs of different streams were in flight inside the handler at the same time,
 		// or a driver ran between two packs
 		out.Nontrivial = plInterleaved(ctl) && len(sc.Colls)+len(sc.Drivers) > 2
@@ -441,4 +444,88 @@ func TestVerifC02Routing(t *testing.T) {
 	}
 	res.Rule = "sched engine over the real channel manager: placements of source/downstream shards onto physical channels {renamed channels, downstream names sorting differently, two collections placed crosswise (forward path between handlers), downstream partition id learned through the create-partition event, downstream collection created through the create-collection event; thorough: 2:1 and 1:2 channel counts} plus every single-letter script; all start orders and schedules within the deviation bound; oracle per emitted message: downstream collection id, downstream partition id of the same-named partition, downstream vchannel paired by sorted order, arrival on the pchannel hosting that vchannel, every pack/message position naming that channel, source message id kept; non-trivial = executions with interleaving inside the handler"
 	plExplore(t, res, "C02", bound, scs, plCheck{props: "12"}, 150*time.Second)
+}
+
+// ------------------------------------------------------------------------------------------------
+// C03
+
+func plSkewScenarios(thorough bool) []*plScenario {
+	var out []*plScenario
+	skews := []int64{0, 1000}
+	if thorough {
+		skews = []int64{0, 1, 1000, -500}
+	}
+	for _, sk := range skews {
+		s1 := []plPack{pkIns(1000), pkTick(1010)}
+		s2 := []plPack{pkInsDelEq(1000 + sk), pkIns(1012 + sk)}
+		clock := 0
+		if thorough {
+			s1 = append(s1, pkDel(1020))
+			clock = 1
+		}
+		sc := plSharedScenario(fmt.Sprintf("skew:%+dms", sk), s1, s2, clock)
+		sc.Hooks = "all"
+		out = append(out, sc)
+	}
+	// tick-only streams racing a data stream
+	{
+		sc := plSharedScenario("skew:ticks-vs-data", []plPack{pkTick(1000), pkTick(1600), pkTick(2200)}, []plPack{pkIns(1001), pkIns(1601)}, 1)
+		sc.HeavyBound = 1
+		out = append(out, sc)
+	}
+	// two source channels multiplexed onto one downstream channel (2:1), the handlers share the channel clock
+	{
+		c := mkColl(101, "c1", []string{"src-dml_0", "src-dml_1"}, []string{"tgt-dml_0", "tgt-dml_0"})
+		c.Shards[0].Script = []plPack{pkIns(1000), pkDel(1010)}
+		c.Shards[1].Script = []plPack{pkTwoIns(1001), pkTick(1011)}
+		out = append(out, &plScenario{Name: "skew:2to1", SrcN: 2, TgtN: 1, Colls: []*plColl{c}, Drivers: []plDriver{{Kind: "start", Coll: 0}}, HeavyBound: 1, Clock: 1})
+	}
+	// stream resumed from a seek position (clock floor initialised from it)
+	{
+		c1 := mkColl(101, "c1", []string{"src-dml_0"}, []string{"tgt-dml_0"})
+		c2 := mkColl(102, "c2", []string{"src-dml_0"}, []string{"tgt-dml_0"})
+		c1.SeekMs, c2.SeekMs = 995, 2000 // c2's checkpoint time is ahead of c1's data
+		c1.Shards[0].Script = []plPack{pkIns(1000), pkDel(1010)}
+		c2.Shards[0].Script = []plPack{pkIns(2001)}
+		out = append(out, &plScenario{Name: "skew:seek-floor", SrcN: 1, TgtN: 1, Colls: []*plColl{c1, c2}, Drivers: []plDriver{{Kind: "start", Coll: 0}, {Kind: "start", Coll: 1}}, HeavyBound: 1, Hooks: "all"})
+	}
+	return out
+}
+
+func TestVerifC03Time(t *testing.T) {
+	res := ev.New("C03", "time")
+	defer res.Write()
+	bound := 2
+	if ev.Thorough() {
+		bound = 3
+	}
+	scs := plSkewScenarios(ev.Thorough())
+	n := 2
+	for _, sc := range plScriptScenarios(n, 0) {
+		sc.Clock = 1
+		scs = append(scs, sc)
+	}
+	for _, sc := range plPlacementScenarios(false) {
+		sc.HeavyBound = 1
+		scs = append(scs, sc)
+	}
+	res.Rule = "sched engine over the real channel manager + TS manager: two collections multiplexed on one source and one downstream channel with clock skew {0,+1ms,+1s,-0.5s} and data/tick-only mixes, tick-only stream racing a data stream, two source channels onto one downstream channel, streams started from seek positions, every single-stream script of <= 2 packs, the placement scenarios; scheduling points: delivery (free), the yield points after begin-ts collection / before the channel lock / between computing and enqueueing a pack, optional clock advance of one tick interval; all schedules within the deviation bound; oracle per downstream channel: packs end with a tick, closing ticks never decrease, every non-tick message is newer than every earlier closing tick and not newer than its own, data packs are self-consistent (pack begin/end, message, row and position timestamps), relative time order per source shard preserved; violating pairs where the later-enqueued pack was computed first are classified C03/overtake; non-trivial = executions with interleaving inside the handler"
+	plExplore(t, res, "C03", bound, scs, plCheck{props: "3"}, 150*time.Second)
+}
+
+func plDescribe(r *plRun) string {
+	s := ""
+	for pch, packs := range r.outs {
+		s += fmt.Sprintf("== %s\n", pch)
+		for i, p := range packs {
+			s += fmt.Sprintf("  pack %d coll=%d/%s src=%s begin=%d end=%d endpos=%s@%d\n", i, p.CollectionID, p.CollectionName, p.PChannelName, p.MsgPack.BeginTs, p.MsgPack.EndTs, p.MsgPack.EndPositions[0].MsgID, p.MsgPack.EndPositions[0].Timestamp)
+			for _, m := range p.MsgPack.Msgs {
+				s += fmt.Sprintf("     %s ts=%d/%d id=%s\n", m.Type(), m.BeginTs(), m.EndTs(), m.Position().GetMsgID())
+			}
+		}
+	}
+	for _, e := range r.events {
+		s += fmt.Sprintf("event %s ts=%d task=%s err=%v\n", e.EventType, e.ReplicateInfo.GetMsgTimestamp(), e.TaskID, e.Error)
+	}
+	return s + fmt.Sprintf("computed=%v\n", r.computed)
 }
